@@ -125,11 +125,15 @@ pub fn run_case<V: VringT<GM> + Clone + Send + Sync + 'static>(case: &Value, tra
     let mut closed = false;
     for step in case["steps"].as_array().unwrap() {
         let op = step["op"].as_str().unwrap();
-        if closed && op != "reconnect" {
+        // letters that act through the memory handle the backend was given, not through the connection
+        let offline_ok = matches!(op, "write" | "probe_mem" | "probe_addr");
+        if closed && op != "reconnect" && !offline_ok {
             // the daemon has ended the connection: nothing can be sent until the case reconnects
             continue;
         }
-        closed = false;
+        if !offline_ok {
+            closed = false;
+        }
         if trace.autoflush {
             trace.emit(json!({"ev": "begin", "op": op, "hk": step["hk"].as_str().unwrap_or(op), "why": step["why"].as_str().unwrap_or("")}));
         }
